@@ -1,9 +1,9 @@
 (* C08 -- A block is sealed only by work on exactly its contents.
    Property theorems only: each is closed by [exact <lemma>] and followed by [Print Assumptions].
-   Model: Model/C08.v   Lemmas: Proofs/C08.v   Generated data: Generated/C08Fields.v *)
+   Model: Model/C08.v   Lemmas: Proofs/C08.v, Proofs/C08_engine.v   Generated data: Generated/C08Fields.v *)
 From Coq Require Import String.
 From Coq Require Import List ZArith Bool.
-From GQ Require Import Generated.C08Fields Model.C08 Proofs.C08.
+From GQ Require Import Generated.C08Fields Model.C08 Proofs.C08 Proofs.C08_engine.
 Import ListNotations.
 Local Open Scope Z_scope.
 
@@ -258,6 +258,44 @@ Print Assumptions body_header_hash_covers_every_field.
 Theorem protocol_constants_as_assumed : params_ok = true.
 Proof. exact params_ok_holds. Qed.
 Print Assumptions protocol_constants_as_assumed.
+
+(* ---- the engines' result caches (kawpow / progpow hashCache) cannot move a seal to other content ---- *)
+
+(* For EVERY history of verifications on one engine instance, starting cold, with arbitrary evictions in between,
+   the memoised ComputePowHash answers exactly like a node that has never verified anything -- unless the key hash
+   (Keccak256 resp. blake3) collides, or two queries have one q_hash (which hashes the number in) and two numbers. *)
+Theorem engine_cache_transparent : forall (KH : bytes -> bytes) (K : bytes -> Z -> Z -> bytes * bytes) k evqs,
+  (forall q, In q (map snd evqs) -> wf_query q) ->
+  engine_run_ev KH K (key_material k) [] evqs = map (pow_hash_pure K) (map snd evqs)
+  \/ (exists x y, x <> y /\ KH x = KH y)
+  \/ (exists q q', In q (map snd evqs) /\ In q' (map snd evqs) /\ q_hash q = q_hash q' /\ q_num q <> q_num q').
+Proof. exact engine_cache_transparent_lemma. Qed.
+Print Assumptions engine_cache_transparent.
+
+(* hence an answer "pow hash p" is the kernel's result for this very (hash, nonce, number), and the header's mix is the
+   kernel's mix: the work of one nonce is never served for another nonce, whatever was verified before *)
+Theorem engine_answer_is_own_work : forall (KH : bytes -> bytes) (K : bytes -> Z -> Z -> bytes * bytes) k evqs,
+  (forall q, In q (map snd evqs) -> wf_query q) ->
+  Forall2 (fun q o => forall p, o = Some p -> q_mix q = fst (kernel_of K q) /\ p = snd (kernel_of K q))
+          (map snd evqs) (engine_run_ev KH K (key_material k) [] evqs)
+  \/ (exists x y, x <> y /\ KH x = KH y)
+  \/ (exists q q', In q (map snd evqs) /\ In q' (map snd evqs) /\ q_hash q = q_hash q' /\ q_num q <> q_num q').
+Proof. exact engine_answer_is_own_work_lemma. Qed.
+Print Assumptions engine_answer_is_own_work.
+
+(* the statement depends on what the key covers: with a key that leaves the nonce out it is false *)
+Theorem engine_key_without_nonce_refuted :
+  exists (K : bytes -> Z -> Z -> bytes * bytes) qs,
+    Forall wf_query qs /\
+    engine_run (fun x => x) K (fun q => q_hash q) qs <> map (pow_hash_pure K) qs.
+Proof. exact engine_key_without_nonce_refuted_lemma. Qed.
+Print Assumptions engine_key_without_nonce_refuted.
+
+Example engine_cache_nonvacuous :
+  (forall q, In q (map snd ex_history) -> wf_query q) /\
+  engine_run_ev (fun x => x) ex_kernel (key_material EKawpow) [] ex_history
+  = [Some (repeat 101 32); None; Some (repeat 101 32); Some (repeat 102 32)].
+Proof. split; [exact ex_history_wf | exact ex_history_run]. Qed.
 
 (* ---- non-vacuity ---- *)
 
